@@ -322,16 +322,21 @@ class InProtocolBase(ProtocolMixin):
         if isinstance(value, six.binary_type):
             cls_attrs = self.get_cls_attrs(cls)
 
-            if cls_attrs.encoding is not None:
-                retval = six.text_type(value, cls_attrs.encoding,
+            try:
+                if cls_attrs.encoding is not None:
+                    retval = six.text_type(value, cls_attrs.encoding,
                                                 errors=cls_attrs.unicode_errors)
 
-            elif self.string_encoding is not None:
-                retval = six.text_type(value, self.string_encoding,
+                elif self.string_encoding is not None:
+                    retval = six.text_type(value, self.string_encoding,
                                                 errors=cls_attrs.unicode_errors)
 
-            else:
-                retval = six.text_type(value, errors=cls_attrs.unicode_errors)
+                else:
+                    retval = six.text_type(value,
+                                                errors=cls_attrs.unicode_errors)
+
+            except UnicodeDecodeError as e:
+                raise ValidationError(value, "%%r: %r" % (e,))
 
         return retval
 
